@@ -417,6 +417,9 @@ func (c03) Generate(r *rand.Rand, t string) []*Case {
 	for i, n := 0, tier(t, 700, 12000); i < n; i++ {
 		out = append(out, c03InsertCase(r, i))
 	}
+	// round 7 (c03_dictkey.go), drawn after everything older
+	out = append(out, c03DictKeyCases(r, t)...)
+	out = append(out, c03UnicodeCases(r, t)...)
 	return out
 }
 
@@ -649,6 +652,9 @@ func c03Small(n int) string {
 func (c03) Compare(c *Case, exp, got []hist.Obs) string {
 	if m, ok := c.Meta["c03i"].(*c03iMeta); ok {
 		return c08fCompare(m.F.Views, exp, got) // stream insert-between-renders: the replayed renders are left out
+	}
+	if c.Meta["weak"] == true {
+		return weakOrderCompare(exp, got) // stream dict-key, recorded finding dict-keys-register-in-map-order only
 	}
 	return CompareAll(exp, got)
 }
